@@ -27,15 +27,18 @@ class Zygotes:
     def __init__(self):
         self.procs = {}
 
-    def get(self, hs):
+    def get(self, hs, tree=None):
+        src = repo_src() if not tree else os.path.join(VERIF, 'golden', {'v140': 'taskchain-1.4.0'}[tree], 'src')
+        hs_key = hs
+        hs = (hs_key, tree)
         p = self.procs.get(hs)
         if p is not None and p.poll() is None:
             return p
         env = dict(os.environ)
-        env['PYTHONHASHSEED'] = HASH_SEEDS[hs]
+        env['PYTHONHASHSEED'] = HASH_SEEDS[hs_key]
         env['OPENBLAS_NUM_THREADS'] = '1'
         env['PYTHONDONTWRITEBYTECODE'] = '1'
-        p = subprocess.Popen([PY, '-X', 'faulthandler', os.path.join(VERIF, 'tcsim/storesim/zygote.py'), repo_src(), VERIF],
+        p = subprocess.Popen([PY, '-X', 'faulthandler', os.path.join(VERIF, 'tcsim/storesim/zygote.py'), src, VERIF],
                              stdin=subprocess.PIPE, stdout=subprocess.PIPE, env=env, start_new_session=True,
                              stderr=None if os.environ.get('TCSIM_DEBUG') else subprocess.DEVNULL)
         line = self._readline(p, 120)
@@ -79,8 +82,9 @@ class Zygotes:
             n -= len(b)
         return b''.join(chunks)
 
-    def run(self, hs, job, timeout=60):
-        p = self.get(hs)
+    def run(self, hs, job, timeout=60, tree=None):
+        p = self.get(hs, tree)
+        hs = (hs, tree)
         job = dict(job)
         job['timeout'] = timeout
         try:
@@ -146,7 +150,7 @@ def execute(scn, zy: Zygotes, keep=False):
                     obs.append({'i': op['i'], 'res': parentops.run(op, scn, root), 'inv': [], 'fs': [], 'fired': []})
                 continue
             job = {'world': scn['world'], 'root': root, 'proc': pi, 'ops': proc['ops']}
-            status, lines = zy.run(proc.get('hs', 0), job)
+            status, lines = zy.run(proc.get('hs', 0), job, tree=proc.get('tree'))
             crashed = None
             for ln in lines:
                 if 'child_exception' in ln:
